@@ -178,6 +178,7 @@ func (h *history) delete(p *PacketReport) {
 		ssrc:           p.SSRC,
 		sequenceNumber: p.RTPSequenceNumber,
 	})
+	delete(h.packets, p.SequenceNumber)
 }
 
 // cleanBefore removes all entries in the interval [h.cleanBefore, counter).
